@@ -2,7 +2,7 @@
 //! explicit inputs (C04).
 //!
 //! Request line (tokens `k=v`, any order):
-//!   `id op=<glwe|glwe_assign|cmux|cmux_assign|cmux_assign_neg|ggsw|ggsw_assign> n=<N> rank=<r>
+//!   `id op=<glwe|glwe_assign|cmux|cmux_assign|cmux_assign_neg|cswap|ggsw|ggsw_assign|gglwe|gglwe_assign> [rin=<rank_in of the GGLWE operand>] n=<N> rank=<r>
 //!       dsize= dnum= bg=<ggsw base2k> kg=<ggsw k> bi=<input base2k> ki=<input k> bo=<res base2k> ko=<res k>
 //!       [kf=<k of the second CMux operand>] [dnuma=<rows of the left GGSW> dnumr=<rows of the result GGSW>] m2=<zero|one|mone|mono:k|dense:seed>
 //!       m1=<rand|ext|raw> seed=<u64> [dirty=<u64>] [stale=<bits>]`
@@ -23,11 +23,11 @@
 use std::collections::HashMap;
 use std::io::{BufRead, Write};
 
-use poulpy_bin_fhe::bdd_arithmetic::Cmux;
+use poulpy_bin_fhe::bdd_arithmetic::{Cmux, Cswap};
 use poulpy_core::{
-    EncryptionLayout, GGSWEncryptSk, GGSWExternalProduct, GLWEEncryptSk, GLWEExternalProduct,
+    EncryptionLayout, GGLWEEncryptSk, GGLWEExternalProduct, GGSWEncryptSk, GGSWExternalProduct, GLWEEncryptSk, GLWEExternalProduct,
     layouts::{
-        Base2K, Degree, Dnum, Dsize, GGSW, GGSWLayout, GGSWPreparedFactory, GLWE, GLWELayout, GLWEPlaintext, GLWESecret,
+        Base2K, Degree, Dnum, Dsize, GGLWE, GGLWELayout, GGSW, GGSWLayout, GGSWPreparedFactory, GLWE, GLWELayout, GLWEPlaintext, GLWESecret,
         GLWESecretPreparedFactory, Rank, TorusPrecision,
         prepared::{GGSWPrepared, GLWESecretPrepared},
     },
@@ -59,6 +59,7 @@ pub struct Case {
     pub kf: usize,
     pub dnuma: usize,
     pub dnumr: usize,
+    pub rin: usize,
     pub dirty: u64,
     /// integer polynomials whose transforms are left in the scratch slot that `res_dft` will occupy
     pub stale: Vec<i64>,
@@ -202,6 +203,7 @@ macro_rules! ep_backend {
             a: &GLWE<Vec<u8>>,
             f: Option<&GLWE<Vec<u8>>>,
             am: Option<&GGSW<Vec<u8>>>,
+            agl: Option<&GGLWE<Vec<u8>>>,
         ) -> String {
             type BE = $be;
             let r = std::panic::catch_unwind(std::panic::AssertUnwindSafe(|| {
@@ -273,6 +275,49 @@ macro_rules! ep_backend {
                         module.cmux_assign_neg(&mut res, f.unwrap(), &prep, scratch.borrow());
                         fmt_glwe(&res)
                     }
+                    "cswap" => {
+                        let fb = f.unwrap();
+                        let mut ra: GLWE<Vec<u8>> = GLWE::alloc_from_infos(a);
+                        ra.data_mut().raw_mut().copy_from_slice(a.data().raw());
+                        let mut rb: GLWE<Vec<u8>> = GLWE::alloc_from_infos(fb);
+                        rb.data_mut().raw_mut().copy_from_slice(fb.data().raw());
+                        module.cswap(&mut ra, &mut rb, &prep, scratch.borrow());
+                        format!("{};{}", fmt_glwe(&ra), fmt_glwe(&rb))
+                    }
+                    "gglwe" | "gglwe_assign" => {
+                        let ag = agl.unwrap();
+                        let rin = c.rin;
+                        if c.op == "gglwe" {
+                            let res_infos = GGLWELayout {
+                                n: Degree(c.n as u32),
+                                base2k: Base2K(c.bo as u32),
+                                k: TorusPrecision(c.ko as u32),
+                                rank_in: Rank(rin as u32),
+                                rank_out: Rank(c.rank as u32),
+                                dnum: Dnum(c.dnumr as u32),
+                                dsize: Dsize(1),
+                            };
+                            let mut res: GGLWE<Vec<u8>> = GGLWE::alloc_from_infos(&res_infos);
+                            for r in 0..c.dnumr {
+                                for ci in 0..rin {
+                                    for x in res.at_mut(r, ci).data_mut().raw_mut().iter_mut() {
+                                        *x = 0x5555;
+                                    }
+                                }
+                            }
+                            module.gglwe_external_product(&mut res, ag, &prep, scratch.borrow());
+                            (0..c.dnumr).flat_map(|r| (0..rin).map(move |ci| (r, ci))).map(|(r, ci)| fmt_glwe(&res.at(r, ci))).collect::<Vec<_>>().join(";")
+                        } else {
+                            let mut res: GGLWE<Vec<u8>> = GGLWE::alloc_from_infos(ag);
+                            for r in 0..c.dnuma {
+                                for ci in 0..rin {
+                                    res.at_mut(r, ci).data_mut().raw_mut().copy_from_slice(ag.at(r, ci).data().raw());
+                                }
+                            }
+                            module.gglwe_external_product_assign(&mut res, &prep, scratch.borrow());
+                            (0..c.dnuma).flat_map(|r| (0..rin).map(move |ci| (r, ci))).map(|(r, ci)| fmt_glwe(&res.at(r, ci))).collect::<Vec<_>>().join(";")
+                        }
+                    }
                     "ggsw" => {
                         let am = am.unwrap();
                         let res_infos = GGSWLayout {
@@ -342,6 +387,7 @@ pub fn one_case(t: &[&str]) -> String {
         kf: us("kf"),
         dnuma: us("dnuma"),
         dnumr: us("dnumr"),
+        rin: us("rin").max(1),
         dirty: kv.get("dirty").map(|s| s.parse::<u64>().unwrap()).unwrap_or(0),
         stale: Vec::new(),
     };
@@ -421,8 +467,29 @@ pub fn one_case(t: &[&str]) -> String {
     let (a, m1) = enc_glwe(c.ki, c.bi, m1class);
     let mut f: Option<GLWE<Vec<u8>>> = None;
     let mut am: Option<GGSW<Vec<u8>>> = None;
+    let mut agl: Option<GGLWE<Vec<u8>>> = None;
     match c.op.as_str() {
-        "cmux" | "cmux_assign" | "cmux_assign_neg" => {
+        "gglwe" | "gglwe_assign" => {
+            let a_infos = GGLWELayout {
+                n: Degree(c.n as u32),
+                base2k: Base2K(c.bi as u32),
+                k: TorusPrecision(c.ki as u32),
+                rank_in: Rank(c.rin as u32),
+                rank_out: Rank(c.rank as u32),
+                dnum: Dnum(c.dnuma as u32),
+                dsize: Dsize(1),
+            };
+            let a_enc = EncryptionLayout::new_from_default_sigma(a_infos).unwrap();
+            let mut ag: GGLWE<Vec<u8>> = GGLWE::alloc_from_infos(&a_infos);
+            let mut pta = ScalarZnx::alloc(c.n, c.rin);
+            let m1s: Vec<i64> = (0..c.n * c.rin).map(|_| (rnd.next() % 3) as i64 - 1).collect();
+            pta.raw_mut().copy_from_slice(&m1s);
+            module.gglwe_encrypt_sk(&mut ag, &pta, &sk_prep, &a_enc, &mut source_xe, &mut source_xa, scratch.borrow());
+            let cells: Vec<String> = (0..c.dnuma).flat_map(|r| (0..c.rin).map(move |ci| (r, ci))).map(|(r, ci)| fmt_glwe(&ag.at(r, ci))).collect();
+            out.push_str(&format!(" am={} m1={}", cells.join(";"), fmt_ints(&m1s)));
+            agl = Some(ag);
+        }
+        "cmux" | "cmux_assign" | "cmux_assign_neg" | "cswap" => {
             let (ff, mf) = enc_glwe(c.kf, c.bi, m1class);
             out.push_str(&format!(" a={} f={} m1={} mf={}", fmt_glwe(&a), fmt_glwe(&ff), fmt_ints(&m1), fmt_ints(&mf)));
             f = Some(ff);
@@ -464,10 +531,10 @@ pub fn one_case(t: &[&str]) -> String {
         c.stale = v.raw().to_vec();
         out.push_str(&format!(" r0={}", fmt_vec(&v)));
     }
-    out.push_str(&format!(" be0={}", run_fft64ref(&c, &ggsw, &a, f.as_ref(), am.as_ref())));
-    out.push_str(&format!(" be1={}", run_ntt120ref(&c, &ggsw, &a, f.as_ref(), am.as_ref())));
-    out.push_str(&format!(" be2={}", run_fft64avx(&c, &ggsw, &a, f.as_ref(), am.as_ref())));
-    out.push_str(&format!(" be3={}", run_ntt120avx(&c, &ggsw, &a, f.as_ref(), am.as_ref())));
+    out.push_str(&format!(" be0={}", run_fft64ref(&c, &ggsw, &a, f.as_ref(), am.as_ref(), agl.as_ref())));
+    out.push_str(&format!(" be1={}", run_ntt120ref(&c, &ggsw, &a, f.as_ref(), am.as_ref(), agl.as_ref())));
+    out.push_str(&format!(" be2={}", run_fft64avx(&c, &ggsw, &a, f.as_ref(), am.as_ref(), agl.as_ref())));
+    out.push_str(&format!(" be3={}", run_ntt120avx(&c, &ggsw, &a, f.as_ref(), am.as_ref(), agl.as_ref())));
     out
 }
 
